@@ -11,22 +11,40 @@ RULE = ('main = prefix lines + W{{> p}} on its own line + suffix; p = 1..5 lines
         'prevent_indent on and off; oracle against the rendering of p alone. Non-trivial = p writes >= 2 lines')
 DATA = {'one': 'ONE', 'ml': 'L1\nL2', 'ml3': 'a\nb\nc', 'e': '', 't': True, 'f': False, 'nl': 'x\n', 'o': {'one': 'oo', 'ml': 'p\nq', 'e': '', 't': True, 'f': False, 'nl': 'y\n', 'ml3': '1\n2\n3'}}
 
+for _d in (DATA, DATA['o']):
+    _d.update({'uni': 'Zoë', 'eur': '10 €', 'mlu': 'é\nü', 'jp': '日本\n', 'l3': ['a', 'b', 'c'], 'l0': []})
 DATA['l'] = [DATA['o'], DATA['o']]
 
 def gen_body(rng, depth, parts):
     lines = []
     for _ in range(rng.randint(1, 5)):
-        k = rng.choice(['text', 'text', 'value', 'value', 'if', 'nested', 'mixed', 'blank'])
+        k = rng.choice(['text', 'text', 'value', 'value', 'if', 'nested', 'mixed', 'blank', 'inl'])
         if k == 'text':
-            lines.append(rng.choice(['alpha', 'beta gamma', 'x']) + '\n')
+            lines.append(rng.choice(['alpha', 'beta gamma', 'x', 'café', 'naïve é', '€']) + '\n')
         elif k == 'blank':
             lines.append('\n')
         elif k == 'value':
-            lines.append('{{' + rng.choice(['one', 'ml', 'ml3', 'e', 'nl']) + '}}\n')
+            lines.append('{{' + rng.choice(['one', 'ml', 'ml3', 'e', 'nl', 'uni', 'eur', 'mlu', 'jp']) + '}}\n')
         elif k == 'mixed':
-            lines.append('<{{' + rng.choice(['one', 'ml', 'e']) + '}}>{{{ml}}}!\n')
+            lines.append(rng.choice(['<', 'é', '']) + '{{' + rng.choice(['one', 'ml', 'e', 'uni', 'mlu']) + '}}' + rng.choice(['>', 'ü', '€']) + '{{{ml}}}' + rng.choice(['!', 'ö']) + '\n')
         elif k == 'if':
             lines.append('{{#if ' + rng.choice(['t', 'f', 't']) + '}}\n' + rng.choice(['in\n', '{{ml}}\n', 'a\nb\n']) + '{{/if}}\n')
+        elif k == 'inl':
+            # blocks and calls that begin or end in the middle of a line, and constructs that write nothing
+            if 'emp' not in parts:
+                parts['emp'] = ''
+            lines.append(rng.choice([
+                '{{#each l3}}{{this}}{{#unless @last}}, {{/unless}}{{/each}}.\n',
+                'k:{{#if t}}v{{#if f}}n{{/if}}{{/if}}!\n',
+                'items:{{#each l3}}\n{{this}}\n{{/each}}end\n',
+                '{{#if t}}{{e}}{{/if}}tail\n',
+                '{{> emp}}text\n',
+                '{{#if f}}x{{/if}}text\n',
+                'a{{> emp}}b\n',
+                '{{#each l0}}x{{/each}}{{e}}after\n',
+                '{{#if t}}y\n{{#if f}}n{{/if}}{{/if}}rest\n',
+                '{{#with o}}{{one}}{{#if f}}n{{/if}}{{/with}};\n',
+            ]))
         elif k == 'nested' and depth > 0:
             nm = f'q{len(parts)}'
             parts[nm] = None
@@ -127,20 +145,3 @@ def relevant_difference(c, mo, io):
     return res_of(mo).get('out') != res_of(io).get('out') or res_of(mo)['kind'] != res_of(io)['kind']
 
 
-def known_F15_first_line(c, mo, io):
-    """the first line the template writes comes out of a nested partial call and lacks its indentation
-    (trailing_newline starts out false): the outputs differ ONLY in the leading blanks of the first written line.
-    This hits the indented call when it is the first thing main writes, and the reference rendering of p alone
-    when p's first output comes from a nested partial."""
-    import re
-    m = re.search(r"expected \(modulo blank-line whitespace\) ('(?:[^'\\]|\\.)*'|\"(?:[^\"\\]|\\.)*\"), got ('(?:[^'\\]|\\.)*'|\"(?:[^\"\\]|\\.)*\")", str(c.get('_what', '')))
-    if not m:
-        return False
-    exp, got = eval(m.group(1)), eval(m.group(2))
-    el, gl = exp.split('\n'), got.split('\n')
-    if len(el) != len(gl):
-        return False
-    diffs = [i for i, (a, b) in enumerate(zip(el, gl)) if norm(a) != norm(b)]
-    if not (1 <= len(diffs) <= 2):          # (2: the call sits in an each over two elements)
-        return False
-    return all(el[i].lstrip(' \t') == gl[i].lstrip(' \t') for i in diffs)
